@@ -32,12 +32,13 @@ CONSTANTS Role,          \* "client" | "server"
           Kinds,         \* message kinds that may be injected
           IdSet,         \* identifier values of injected requests
           MaxQ,          \* bound on the receive queue
+          ValidOnly,     \* inject only messages the validator accepts (used to focus on identifiers)
           Deviations
 
 States == {"Closed", "WaitConnAck", "WaitICEA", "Open", "Closing", "WaitReturns", "WaitConnAckElect"}
 Base == {"CER", "CEA", "DWR", "DWA", "DPR", "DPA"}
 Msgs == {[k |-> k, valid |-> v, id |-> i] : k \in Kinds, v \in BOOLEAN, i \in IdSet}
-InjMsgs == {m \in Msgs : (m.k \in {"REQ", "ANS", "MIS", "DPA"} => m.valid)}     \* validity only matters where it is computed
+InjMsgs == {m \in Msgs : (m.k \in {"REQ", "ANS", "MIS", "DPA"} => m.valid) /\ (ValidOnly => m.valid)}     \* validity only matters where it is computed
 
 VARIABLES st, recvQ, active, peerGone, connected, refused, idle, running, released, out, dlv
 vars == <<st, recvQ, active, peerGone, connected, refused, idle, running, released, out, dlv>>
@@ -60,9 +61,9 @@ LocalStop == /\ running /\ st # "Closed" /\ active
              /\ active' = FALSE /\ out' = <<>> /\ dlv' = <<>>
              /\ UNCHANGED <<st, recvQ, peerGone, connected, refused, idle, running, released>>
 PeerDisc == /\ running /\ connected /\ ~peerGone /\ ~released /\ st \in {"WaitICEA", "Open", "Closing"}
-            /\ peerGone' = TRUE /\ out' = <<>> /\ dlv' = <<>>
-            /\ UNCHANGED <<st, recvQ, active, connected, refused, idle, running, released>>
-IdleReached == /\ running /\ st = "Open" /\ ~idle
+            /\ peerGone' = TRUE /\ idle' = FALSE /\ out' = <<>> /\ dlv' = <<>>      \* the disconnect is a socket event
+            /\ UNCHANGED <<st, recvQ, active, connected, refused, running, released>>
+IdleReached == /\ running /\ st = "Open" /\ ~idle /\ ~peerGone
                /\ idle' = TRUE /\ out' = <<>> /\ dlv' = <<>>
                /\ UNCHANGED <<st, recvQ, active, peerGone, connected, refused, running, released>>
 
@@ -141,8 +142,9 @@ Tick == /\ running
                   /\ IF r.next = "Closed" /\ st # "Closed"
                      THEN \* get_next_state: the thread stops and the association is closed
                           /\ running' = FALSE /\ released' = TRUE /\ connected' = FALSE /\ active' = FALSE
-                     ELSE /\ active' = r.act /\ UNCHANGED <<running, released, connected>>
-                  /\ UNCHANGED <<peerGone, refused>>
+                          /\ peerGone' = FALSE                  \* the transport object is dropped with its signal
+                     ELSE /\ active' = r.act /\ UNCHANGED <<running, released, connected, peerGone>>
+                  /\ UNCHANGED refused
 
 Next == (\E rf \in (IF Role = "client" THEN BOOLEAN ELSE {FALSE}) : Start(rf)) \/ (\E m \in InjMsgs : Inject(m)) \/ LocalStop \/ PeerDisc \/ IdleReached \/ Tick
 Spec == Init /\ [][Next]_vars
